@@ -21,7 +21,7 @@ package main
 //	R  i            crash + restart: the RawNode is rebuilt from its MemoryStorage
 //	D  i <msg>      Step(msg) of an in-flight message addressed to i (removed from the network)
 //	DD i <msg>      the same, but the message stays in flight (duplication)
-//	FP i from p     Step of a forwarded MsgProp
+//	FP/FPD i from p Step of a forwarded MsgProp (FPD: it stays in flight)
 //	XC/XP/XT/XD/XFP the call is made, then the node crashes BEFORE its Ready is persisted or
 //	                sent: the RawNode is rebuilt from storage (for the model: a restart)
 //
@@ -290,7 +290,7 @@ func (c *cluster) exec(kind string, i int, payload int, m *flightMsg) (ok bool) 
 		fmt.Fprintf(c.w, "EV %s %d %d\n", kind, nd.id, payload)
 	case "D", "DD":
 		fmt.Fprintf(c.w, "EV %s %d %s\n", kind, nd.id, msgKey(*m))
-	case "FP":
+	case "FP", "FPD":
 		fmt.Fprintf(c.w, "EV %s %d %s\n", kind, nd.id, msgKey(*m))
 	}
 	defer func() {
@@ -322,7 +322,7 @@ func (c *cluster) exec(kind string, i int, payload int, m *flightMsg) (ok bool) 
 		}
 	case "SR":
 		nd.rn.ReportSnapshot(uint64(payload), raft.SnapshotFailure)
-	case "D", "DD", "FP":
+	case "D", "DD", "FP", "FPD":
 		nd.pendingGhost = m.ghost
 		_ = nd.rn.Step(m.m)
 	}
@@ -384,9 +384,12 @@ func (c *cluster) runRandom(r *rng, nevents int) {
 		}
 		kind := kindD
 		if m.m.Type == pb.MsgProp {
-			if strings.HasPrefix(kindD, "X") {
+			switch {
+			case strings.HasPrefix(kindD, "X"):
 				kind = "XFP"
-			} else {
+			case keep:
+				kind = "FPD"
+			default:
 				kind = "FP"
 			}
 		}
@@ -594,7 +597,7 @@ func cmdSimFile(args []string) error {
 					continue
 				}
 				ok = c.exec(kind, id-1, p, nil)
-			case "D", "DD", "FP":
+			case "D", "DD", "FP", "FPD":
 				key := strings.Join(tok[3:], " ")
 				found := -1
 				for k, fm := range c.flight {
@@ -607,7 +610,7 @@ func cmdSimFile(args []string) error {
 					continue
 				}
 				m := c.flight[found]
-				if base != "DD" {
+				if base != "DD" && base != "FPD" {
 					c.flight = append(c.flight[:found], c.flight[found+1:]...)
 				}
 				ok = c.exec(kind, id-1, 0, &m)
